@@ -53,8 +53,15 @@ pub mod env_model {
     }
     pub mod env {
         use super::super::*;
-        pub struct VarError;
+        pub enum VarError { NotPresent, NotUnicode }
+        #[verifier::external_body]
+        pub struct OsString { _p: usize }
         pub uninterp spec fn env_var(name: Seq<char>) -> core::result::Result<String, VarError>;
+        // var_os is Some exactly when the variable is present in the environment (whatever its value, the empty string included)
+        #[verifier::external_body]
+        pub fn var_os(name: &str) -> (r: Option<OsString>)
+            ensures r is Some <==> !(env_var(name@) matches Err(VarError::NotPresent)),
+        { unimplemented!() }
         #[verifier::external_body]
         pub fn var(name: &str) -> (r: core::result::Result<String, VarError>) ensures r == env_var(name@) { unimplemented!() }
     }
